@@ -34,15 +34,23 @@ pub fn check(case: &Case, rec: &mut Rec) -> Option<Failure> {
     };
     let zero_vol = case.extra.first().copied().unwrap_or(0.0) == 1.0;
     let mark = case.ops.iter().position(|o| *o == Op::Mark).unwrap_or(case.ops.len());
+    // a reset() right before the stretch: everything (t, the magnitude budget, the window) restarts there
+    let reset_before = mark > 0 && case.ops[mark - 1] == Op::Reset;
     let mut big = 0.0f64;
     let mut t = 0usize;
     for (i, op) in case.ops[..mark].iter().enumerate() {
         match op {
             Op::Next(x) => big = big.max(x.abs()),
             Op::Bar(b) => big = big.max(bar_mag(b)),
+            Op::Reset => {
+                big = 0.0;
+                t = 0;
+            }
             _ => {}
         }
-        t += 1;
+        if *op != Op::Reset {
+            t += 1;
+        }
         if let Some(None) = feed(rec, id, op) {
             return fail(case, "panic", format!("panic in prefix at {}", i));
         }
@@ -53,6 +61,9 @@ pub fn check(case: &Case, rec: &mut Rec) -> Option<Failure> {
     let mut mfi_ref = if name == "MoneyFlowIndex" { Some(super::c03::Ref::new(name, &case.ps)) } else { None };
     if let Some(rf) = mfi_ref.as_mut() {
         for op in case.ops[..mark].iter() {
+            if *op == Op::Reset {
+                *rf = super::c03::Ref::new(name, &case.ps);
+            }
             if let Op::Bar(b) = op {
                 rf.step(None, Some(b));
             }
@@ -87,7 +98,7 @@ pub fn check(case: &Case, rec: &mut Rec) -> Option<Failure> {
             _ => 0.0,
         };
         // the window is degenerate once it holds only stretch inputs (always, when there is no prefix)
-        let degenerate = k >= lb || mark == 0;
+        let degenerate = k >= lb || mark == 0 || reset_before;
         for (q, v) in out.iter().enumerate() {
             // (at levels below 1e-290 a window that is not yet degenerate may legitimately underflow: not C08's claim)
             if !v.is_finite() && (degenerate || level_now >= 1e-290) {
@@ -115,7 +126,9 @@ pub fn check(case: &Case, rec: &mut Rec) -> Option<Failure> {
             "FastStochastic" if out[0] != 50.0 => bad("neutral", format!("FastStochastic = {:e}, expected 50 exactly", out[0])),
             "CommodityChannelIndex" if out[0] != 0.0 => {
                 // finite but non-zero: numerator and MAD are both rounding residue of the running means
-                bad("neutral-residue", format!("CCI = {:e}, expected 0 exactly (window flat)", out[0]))
+                // with period 1 SMA(1) is bit-exactly its input (sum - old + new cancels exactly), so `tp - sma` is exactly 0
+                // on the unchanged crate: the known residue finding only concerns periods >= 2
+                bad(if case.ps[0] == 1 { "neutral" } else { "neutral-residue" }, format!("CCI = {:e}, expected 0 exactly (window flat)", out[0]))
             }
             "RateOfChange" if out[0] != 0.0 => bad("neutral", format!("RateOfChange = {:e}, expected 0 exactly", out[0])),
             "TrueRange" if out[0] != 0.0 => bad("neutral", format!("TrueRange = {:e}, expected 0 exactly", out[0])),
@@ -307,6 +320,10 @@ pub fn generate(r: &mut Runner) {
             } else {
                 c.ops = gen::valid_bars(&mut r.rng, &pre).into_iter().map(Op::Bar).collect();
             }
+            if r.rng.chance(0.25) {
+                c.ops.push(Op::Reset);
+                c.kind = format!("{}+reset", c.kind);
+            }
             c.ops.push(Op::Mark);
             let level = scale * (0.5 + r.rng.unit());
             for _ in 0..(p + 2 + r.rng.below(20)) {
@@ -320,4 +337,4 @@ pub fn generate(r: &mut Runner) {
     }
 }
 
-pub const RULE: &str = "for all 22 indicators and periods 1..=8: six prefix variants (none, 1 input, n+1, 3n+7 inputs; walk/alt/spike regimes incl. x10^6 spikes, scalars or valid bars) followed by a flat stretch of 3n+5 inputs (one variant: 1200 quick / 6000 thorough inputs, long enough for exponential averages to underflow) at levels {1, 0.1, 100, 12345.678, 1e6, 3.3e-3}, volumes incl. 0; plus zero-volume stretches with moving prices for MFI/OBV after prefixes with x10^6 volumes; plus flat stretches at the extreme levels {1e-310, 3e-308, 1e-300, 1e-160, 1e150} for periods 1, 2, 5, 14 with and without a prefix at the same scale; plus sampled periods to 128 after histories to 400 inputs. NEGATIVE flat levels: every short-stretch case of the first stage and every extreme-level case is run a second time mirrored (all prices negated, high/low swapped, volumes kept: levels -1, -0.1, -100, -1e6, -3.3e-3, -1e-310 .. -1e150, prefixes negative too), and 30% of the sampled cases are mirrored, for all indicators except MoneyFlowIndex (money flow presupposes positive prices). Long prefixes (6 quick / 60 thorough rounds over all 22 indicators, a quarter mirrored): period from {1,2,3,5,8,14,20,50,128}, an active prefix in one of 9 regimes at scale {1,100,1e6} of length uniform in [n+1, 5000] (thorough 40000) or N+n+j with N a round count from {256,512,1000,1024,2000,2048,4096,5000 (thorough also 8192..32768)} and j in 0..=3, then a flat stretch of n+2..n+21 inputs. Every step of the stretch: outputs finite and inside the documented range; once the reference window is degenerate (n, or n+1 for ROC/ER/MFI, equal inputs): FastStochastic 50, CCI 0, ROC 0, TrueRange 0 exactly, MAD <= tau(t)*M, SD <= sqrt(tau(t))*M, Bollinger bands within sqrt(tau(t))*M of the average. Non-trivial = non-empty active prefix.";
+pub const RULE: &str = "for all 22 indicators and periods 1..=8: six prefix variants (none, 1 input, n+1, 3n+7 inputs; walk/alt/spike regimes incl. x10^6 spikes, scalars or valid bars) followed by a flat stretch of 3n+5 inputs (one variant: 1200 quick / 6000 thorough inputs, long enough for exponential averages to underflow) at levels {1, 0.1, 100, 12345.678, 1e6, 3.3e-3}, volumes incl. 0; plus zero-volume stretches with moving prices for MFI/OBV after prefixes with x10^6 volumes; plus flat stretches at the extreme levels {1e-310, 3e-308, 1e-300, 1e-160, 1e150} for periods 1, 2, 5, 14 with and without a prefix at the same scale; plus sampled periods to 128 after histories to 400 inputs. NEGATIVE flat levels: every short-stretch case of the first stage and every extreme-level case is run a second time mirrored (all prices negated, high/low swapped, volumes kept: levels -1, -0.1, -100, -1e6, -3.3e-3, -1e-310 .. -1e150, prefixes negative too), and 30% of the sampled cases are mirrored, for all indicators except MoneyFlowIndex (money flow presupposes positive prices). Long prefixes (6 quick / 60 thorough rounds over all 22 indicators, a quarter mirrored): period from {1,2,3,5,8,14,20,50,128}, an active prefix in one of 9 regimes at scale {1,100,1e6} of length uniform in [n+1, 5000] (thorough 40000) or N+n+j with N a round count from {256,512,1000,1024,2000,2048,4096,5000 (thorough also 8192..32768)} and j in 0..=3, then a flat stretch of n+2..n+21 inputs. A quarter of the long-prefix cases call reset() right before the stretch (the window is then degenerate from the first stretch input, t and the magnitude budget restart). Every step of the stretch: outputs finite and inside the documented range; once the reference window is degenerate (n, or n+1 for ROC/ER/MFI, equal inputs): FastStochastic 50, CCI 0, ROC 0, TrueRange 0 exactly, MAD <= tau(t)*M, SD <= sqrt(tau(t))*M, Bollinger bands within sqrt(tau(t))*M of the average. Non-trivial = non-empty active prefix.";
